@@ -55,7 +55,7 @@ Proof.
       - unfold s1. cbn [bef]. unfold op. apply opos_after_op. exact Hop.
       - unfold s1. cbn [bef]. intros H. apply Hbad. exact H.
       - exact Hj.
-      - unfold s1. cbn [bef]. apply ND_cons. exact Hnd.
+      - right. reflexivity.
       - intros r a0 Hr. unfold s1. cbn [bef].
         replace (rev rb ++ op :: bef s) with (rev (op :: rb) ++ bef s)
           by (cbn [rev]; rewrite <- app_assoc; reflexivity).
